@@ -213,6 +213,9 @@ class Interp:
                 loops[-1].deltas[name] = loops[-1].deltas[name] + add
             st.env[name] = cur + add
             return [(st, Outcome("fall"))]
+        if isinstance(s.op, ast.Add) and isinstance(cur, list) and isinstance(val, (list, STuple)):
+            st.env[name] = list(cur) + list(val if isinstance(val, list) else val.items)
+            return [(st, Outcome("fall"))]
         if isinstance(cur, Lin) or isinstance(cur, (int, bool)):
             a = self.ev.as_lin(cur, s)
             b = self.ev.as_lin(val, s.value)
@@ -289,6 +292,23 @@ class Interp:
         elif isinstance(it, TRef) and it.typ[0] == "list":
             loop.count, loop.over = Lin.atom(("len", it.path)), it.path
             self.assign(s.target, typed_value(f"{it.path}[*]", it.typ[1]), sub, s)
+        elif isinstance(it, (STuple, list)):
+            # a loop over a literal tuple / list of known elements is unrolled
+            items = it.items if isinstance(it, STuple) else it
+            states: t.List[t.Tuple[State, Outcome]] = [(st, Outcome("fall"))]
+            for item in items:
+                nxt: t.List[t.Tuple[State, Outcome]] = []
+                for cur, o in states:
+                    if o.kind != "fall":
+                        nxt.append((cur, o))
+                        continue
+                    self.assign(s.target, item, cur, s)
+                    for x, o2 in self.block(s.body, cur):
+                        if o2.kind in ("break",):
+                            raise Unsupported(f"{self.func.qual}:{s.lineno}: break in an unrolled loop")
+                        nxt.append((x, Outcome("fall") if o2.kind == "continue" else o2))
+                states = nxt
+            return states
         else:
             raise Unsupported(f"{self.func.qual}:{s.lineno}: loop over {unparse(s.iter)}")
         return self._loop_body(s, s.body, loop, st, sub)
@@ -303,6 +323,24 @@ class Interp:
         carried = self._loop_vars(body)
         base_reads = len(sub.reads)
         views: t.Dict[str, SView] = {}
+        offsets: t.Dict[str, t.Tuple[Lin, SView]] = {}
+        for name in carried:
+            cur = st.env.get(name)
+            if isinstance(cur, Lin) and name not in views:
+                # a running integer offset into a view that is not rebound: `x = f(view[off:]); off += size`
+                # element start IB := view.lo + off, so inside the body  off = IB - view.lo
+                users = set()
+                for s_ in body:
+                    for n in ast.walk(s_):
+                        if isinstance(n, ast.Subscript) and isinstance(n.value, ast.Name) and any(isinstance(x, ast.Name) and x.id == name for x in ast.walk(n.slice)):
+                            users.add(n.value.id)
+                stepped = any(isinstance(n, ast.AugAssign) and isinstance(n.target, ast.Name) and n.target.id == name and isinstance(n.op, ast.Add) for s_ in body for n in ast.walk(s_))
+                if stepped and len(users) == 1:
+                    vname = next(iter(users))
+                    v = st.env.get(vname)
+                    if isinstance(v, SView) and vname not in carried:
+                        offsets[name] = (cur, v)
+                        sub.env[name] = Lin.atom(("iterbase", loop.lid, name)) - v.lo
         for name in carried:
             cur = st.env.get(name)
             if isinstance(cur, SView):
@@ -343,9 +381,15 @@ class Interp:
             adv = v1.lo - Lin.atom(("iterbase", loop.lid, name))
             cloop.advance[name] = adv
             after.env[name] = SView(v0.src, v0.lo + Lin.atom(("loopspan", loop.lid, name)), v0.hi)
+        for name, (off0, v) in offsets.items():
+            v1 = chosen.env.get(name)
+            if not isinstance(v1, Lin):
+                raise Unsupported(f"{self.func.qual}:{s.lineno}: loop rebinding of {name}")
+            cloop.advance[name] = v1 - (Lin.atom(("iterbase", loop.lid, name)) - v.lo)
+            after.env[name] = off0 + Lin.atom(("loopspan", loop.lid, name))
         rid = after.new_id()
-        src = next(iter(views.values())).src if views else ""
-        lo0 = next(iter(views.values())).lo if views else Lin(0)
+        src = next(iter(views.values())).src if views else (next(iter(offsets.values()))[1].src if offsets else "")
+        lo0 = next(iter(views.values())).lo if views else ((next(iter(offsets.values()))[1].lo + next(iter(offsets.values()))[0]) if offsets else Lin(0))
         after.reads.append(
             Read(rid, "repeat", src, lo0, lo0, count=cloop.count, body=cloop.reads, advance=dict(cloop.advance), lid=loop.lid, node=s, appends=dict(cloop.appends))
         )
